@@ -186,12 +186,12 @@ func RegisteredGrpcMethods() (map[string]bool, error) {
 }
 
 type authServer struct {
-	cmd        *exec.Cmd
-	httpAddr   string
-	grpcAddr   string
-	dir        string
-	logf       *os.File
-	https      bool
+	cmd      *exec.Cmd
+	httpAddr string
+	grpcAddr string
+	dir      string
+	logf     *os.File
+	https    bool
 }
 
 func startServer(bin string, p *pki, work string, auth string, allow, metrics, idle bool) (*authServer, error) {
@@ -392,7 +392,7 @@ func RunAuth(bin string, rows []AuthRow, seed int64) (runs []AuthRun, viols []dr
 		return nil, nil, err
 	}
 	type cfgKey struct {
-		auth           string
+		auth                 string
 		allow, metrics, idle bool
 	}
 	byCfg := map[cfgKey][]AuthRow{}
